@@ -500,6 +500,10 @@ def quiescence_oracle(sc):
         if final is not None and final != "Ready(Ok)":
             return None, known, "failed-during-teardown"      # a connection error: not the idle-close claim
         if final is None:
+            sn = last.get("snap")
+            if sn and any(s["is_counted"] and not rec_closed(s) for s in sn["streams"]):
+                # a stream that still has frames to send (blocked by the peer's flow control) or to receive is not gone yet
+                return None, known, "streams-still-active"
             return {"why": "all request handles and streams are gone but the client connection never completed", "result": final,
                     "goaways": goaways[-2:]}, known, "checked"
         if not goaways or goaways[-1].get("code") != 0:
